@@ -244,7 +244,8 @@ func buildReverseSearchers(
 
 	case UseReverseSuffix:
 		suffixLiterals := extractor.ExtractSuffixes(re)
-		searcher, err := NewReverseSuffixSearcher(nfaEngine, suffixLiterals, dfaConfig, hasDotStarPrefix(re))
+		matchStartZero := suffixLiterals != nil && isDotStarLiteral(re, suffixLiterals.LongestCommonSuffix())
+		searcher, err := NewReverseSuffixSearcher(nfaEngine, suffixLiterals, dfaConfig, matchStartZero)
 		if err != nil {
 			result.finalStrategy = UseDFA
 		} else {
